@@ -138,6 +138,9 @@ func (r *Run) OverBudget() bool {
 	return r.budget > 0 && time.Since(r.start) > r.budget
 }
 
+// Budget returns the leg's soft time budget (0 = none).
+func (r *Run) Budget() time.Duration { return r.budget }
+
 func (r *Run) p(prop string) *PropCoverage {
 	pc := r.res.Props[prop]
 	if pc == nil {
